@@ -226,7 +226,20 @@ package sstables
 
 //@ func (*SSTableStreamWriter).Close
 //@   assumed
+//@   // (assumed: the frame below, which callers use; the exit clauses are verified against the body)
 //@   modifies writer.*, writer.metaData.*
+//@   props C15 C11 C19
+//@   requires writer.opts != nil && writer.indexWriter != nil && writer.dataWriter != nil
+//@   exit [C19:both-record-files-closed] called(WriterI.Close, 0) && called(WriterI.Close, 1)
+//@   exit [C11:close-errors-reported] callres(WriterI.Close, 0, 0) != nil || callres(WriterI.Close, 1, 0) != nil ==> err != nil
+//@   exit [C11:bloom-filter-write-error-reported] called(Filter.WriteFile, 0) && callres(Filter.WriteFile, 0, 1) != nil ==> err != nil
+//@   exit [C11:metadata-write-error-reported] called(File.Write, 0) && callres(File.Write, 0, 1) != nil ==> err != nil
+//@   exit [C19,C11:metadata-file-closed-and-its-error-reported] old(writer.metaData) != nil && old(writer.metaDataFile) != nil ==>
+//@        called(File.Close, 0) && (callres(File.Close, 0, 0) != nil ==> err != nil)
+//@   call 0 of proto.Marshal: assert [C15:metadata-is-truthful-when-it-is-written] writer.metaData.MaxKey === writer.lastKey &&
+//@        writer.metaData.DataBytes == wrSize(writer.dataWriter) &&
+//@        (writer.metaData.DataBytes < 4611686018427387904 && writer.metaData.IndexBytes < 4611686018427387904 ==>
+//@         writer.metaData.TotalBytes == writer.metaData.DataBytes + writer.metaData.IndexBytes)
 
 // C03: a skip list of any length (zero included) is written through the validated options the writer was built with.
 //@ func (*SSTableSimpleWriter).WriteSkipListMap
